@@ -26,6 +26,8 @@ int run_script(std::size_t block_size, const std::string& header)
     struct mk { typename Stack::marker m; std::size_t nlive; };
     std::vector<mk> markers;
     std::vector<Stack*> graveyard;
+    struct th { std::size_t c, size, al; bool arr; };
+    std::vector<th> thandles;
     auto check = [&](const char* when) {
         for (auto& l : live) { auto p = reinterpret_cast<unsigned char*>(U.base + l.off);
             for (std::size_t i = 0; i < l.size; ++i) if (p[i] != (unsigned char)(l.pat + 3 * i)) { std::printf("corrupt off=%zu size=%zu at=%zu %s\n", l.off, l.size, i, when); break; } }
@@ -60,6 +62,25 @@ int run_script(std::size_t block_size, const std::string& header)
             }
             res = b;
         }
+        else if (op == "an" || op == "aa")
+        {   // through allocator_traits (leak accounting)
+            using traits = allocator_traits<Stack>;
+            std::size_t c = 1, size, al; if (op == "aa") is >> c; is >> size >> al;
+            void* p = nullptr; const char* e = nullptr;
+            try { p = op == "an" ? traits::allocate_node(*st, size, al) : traits::allocate_array(*st, c, size, al); } catch (...) { e = classify_current(); }
+            char b[160];
+            if (e) std::snprintf(b, sizeof b, "throw %s", e);
+            else { std::snprintf(b, sizeof b, "ok %zu h%zu", U.off(p), thandles.size()); thandles.push_back({c, size, al, op == "aa"}); }
+            res = b;
+        }
+        else if (op == "dn" || op == "da")
+        {
+            using traits = allocator_traits<Stack>;
+            std::size_t k; is >> k; if (k >= thandles.size()) { std::printf("%s = skipped\n", line.c_str()); continue; }
+            auto& h = thandles[k];
+            if (h.arr) traits::deallocate_array(*st, nullptr, h.c, h.size, h.al); else traits::deallocate_node(*st, nullptr, h.size, h.al);
+            res = "true";
+        }
         else if (op == "top")
         {
             auto m = st->top(); markers.push_back({m, live.size()});
@@ -82,7 +103,14 @@ int run_script(std::size_t block_size, const std::string& header)
         else if (op == "q") res = "q";
         else if (op == "fail") { long k; is >> k; U.fail_at = U.calls + k; res = "set"; }
         else if (op == "mv") { Stack* n = new (U.place(sizeof(Stack))) Stack(std::move(*st)); graveyard.push_back(st); st = n; res = "moved"; }
-        else if (op == "destroy") { check("before-destroy"); st->~Stack(); for (auto g : graveyard) g->~Stack(); std::printf("destroy = ok |%s | leaks=%ld\n", U.take().c_str(), hc().leak); break; }
+        else if (op == "ma")
+        {
+            std::string w; is >> w; U.fail_at = -1;
+            Stack* n = new (U.place(sizeof(Stack))) Stack(block_size);
+            if (w == "used") allocator_traits<Stack>::allocate_node(*n, 1, 1);
+            *n = std::move(*st); graveyard.push_back(st); st = n; markers.clear(); live.clear(); res = "assigned";
+        }
+        else if (op == "destroy") { check("before-destroy"); st->~Stack(); for (auto g : graveyard) g->~Stack(); std::printf("destroy = ok |%s | leaks=%ld amounts=%s\n", U.take().c_str(), hc().leak, leak_list().c_str()); break; }
         else { std::printf("? %s\n", line.c_str()); continue; }
         std::string ev = U.take();
         std::printf("%s = %s |%s | %s\n", line.c_str(), res.c_str(), ev.c_str(), caps().c_str());
